@@ -309,25 +309,50 @@ func (p *Program) Locks() *Locks {
 	}
 	// methods reachable through interface dispatch: any method whose name is
 	// declared by an interface of the program and whose receiver implements it
-	ifaceMethods := map[string]bool{}
+	var ifaces []*types.Interface
 	for _, pk := range p.Pkgs {
 		sc := pk.Types.Scope()
 		for _, name := range sc.Names() {
 			if tn, ok := sc.Lookup(name).(*types.TypeName); ok {
-				if it, ok := tn.Type().Underlying().(*types.Interface); ok {
-					for i := 0; i < it.NumMethods(); i++ {
-						ifaceMethods[it.Method(i).Name()] = true
-					}
+				if it, ok := tn.Type().Underlying().(*types.Interface); ok && it.NumMethods() > 0 {
+					ifaces = append(ifaces, it)
 				}
 			}
 		}
 	}
+	// methods of well-known library interfaces (sort, heap, io, fmt, error, http) are matched by name
+	libMethods := map[string]bool{}
 	for _, m := range []string{"Len", "Less", "Swap", "Push", "Pop", "Write", "Read", "Close", "String", "Error", "GoString", "ServeHTTP"} {
-		ifaceMethods[m] = true
+		libMethods[m] = true
 	}
 	for _, f := range funcs {
-		if f.Decl.Recv != nil && ifaceMethods[f.Decl.Name.Name] {
+		if f.Decl.Recv == nil {
+			continue
+		}
+		name := f.Decl.Name.Name
+		if libMethods[name] {
 			L.dyn[f] = true
+			continue
+		}
+		recv := f.Obj.Type().(*types.Signature).Recv()
+		if recv == nil {
+			continue
+		}
+		rt := recv.Type()
+		base := rt
+		if pt, ok := rt.(*types.Pointer); ok {
+			base = pt.Elem()
+		}
+		for _, it := range ifaces {
+			has := false
+			for i := 0; i < it.NumMethods(); i++ {
+				if it.Method(i).Name() == name {
+					has = true
+				}
+			}
+			if has && (types.Implements(base, it) || types.Implements(types.NewPointer(base), it)) {
+				L.dyn[f] = true
+			}
 		}
 	}
 	// fixpoint: start optimistic (nil = top) for functions with static sites
